@@ -26,7 +26,7 @@ ASSUMPTIONS = [
 
 ESC_CHARS = ["\t", "\n", "\r", "%", ";", "=", "&", ",", "\x00", "\x01", "\x1f", "\x7f"]
 # GTF text has no escaping: these characters are plain data there (and so is a percent sequence)
-RAW_GTF = ["=", "&", "%", "+", "%3B", "a=b c=d"]
+RAW_GTF = ["=", "&", "%", "+", "%3B", "a=b c=d", "x  y"]          # the last: two consecutive blanks inside a value
 KEYS = ["ID", "Name", "k3", "note_4"]
 KINDS = ("single", "two", "three", "flag")
 VALS = {
